@@ -5,6 +5,7 @@
 cd /verif
 run() {
   s=$1; own=${s%-*}
+  grep -q '"neutralised"' seeded/$s/meta.json && return 0
   extra=""
   case $s in
     C01-m4) extra="C04" ;;
@@ -21,10 +22,27 @@ run() {
     C02-m4|C07-m3) extra="C02 C07" ;;
     C02-m3|C07-m4) extra="C02 C07 C08" ;;
     C10-m2) extra="C09" ;;
+    C01-m5) extra="C02 C07" ;;
+    C01-m6) extra="C15 C06 C04" ;;
+    C02-m5|C07-m6|C08-m5) extra="C02 C07 C08" ;;
+    C02-m6|C08-m6) extra="C02 C05 C08" ;;
+    C05-m5) extra="C02" ;;
+    C05-m6) extra="C09" ;;
+    C09-m5) extra="C18" ;;
+    C10-m5) extra="C09" ;;
+    C11-m6) extra="C10" ;;
+    C12-m6) extra="C18" ;;
+    C14-m6) extra="C03" ;;
+    C15-m5) extra="C18" ;;
+    C18-m5) extra="C03 C19" ;;
+    C18-m6) extra="C15" ;;
+    C19-m6) extra="C06" ;;
   esac
   tools/matrix.sh $s $(echo $own $extra | tr ' ' '\n' | awk '!seen[$0]++' | tr '\n' ' ')
 }
 export -f run
-rm -f /tmp/mx/matrix*.txt
-ls seeded | grep -E '^C[0-9]+-m[0-9]+$' | xargs -P 4 -I{} bash -c 'run {}' > /tmp/mx/matrix.txt 2>&1
+# MATRIX_FILTER (a regular expression on the names) runs a part only and appends to the result
+F=${MATRIX_FILTER:-.}
+[ "$F" = "." ] && rm -f /tmp/mx/matrix*.txt
+ls seeded | grep -E '^C[0-9]+-m[0-9]+$' | grep -E -e "$F" | xargs -P 4 -I{} bash -c 'run {}' >> /tmp/mx/matrix.txt 2>&1
 echo done >> /tmp/mx/matrix.txt
